@@ -470,6 +470,13 @@ double cmb_random_std_gamma(const double shape)
 {
     cmb_assert_release(shape > 0.0);
 
+    if (shape < 1.0) {
+        /* The method below needs shape >= 1. Sample shape + 1 and scale by a
+         * power of a uniform variate, see section 6 of the paper. */
+        const double g = cmb_random_std_gamma(shape + 1.0);
+        return g * pow(cmb_random(), 1.0 / shape);
+    }
+
     static CMB_THREAD_LOCAL double a_prev = 0.0;
     static CMB_THREAD_LOCAL double c = 0.0;
     static CMB_THREAD_LOCAL double d = 0.0;
